@@ -1,0 +1,9 @@
+//go:build !verif
+
+package mathx
+
+const verifEnabled = false
+
+func verifCoin(float64) (bool, bool) { return false, false }
+
+func verifRand() (float64, bool) { return 0, false }
